@@ -47,7 +47,11 @@ static void register_svd(const Problem& p) {
 
 static std::vector<Adj::algorithm> algorithms(const Problem& p) {
   std::vector<Adj::algorithm> a{Adj::envelope, Adj::cholesky, Adj::gso};
+#ifdef SX_REPLAY
+  a.push_back(Adj::svd);          // the double build runs the real Golub-Reinsch iteration on every matrix (native validation of the svd contract)
+#else
   if (p.svd_known) a.push_back(Adj::svd);
+#endif
   return a;
 }
 
